@@ -1932,6 +1932,12 @@ class PGPKey(Armorable, ParentRef, PGPObject):
             key._key = npk
             key._key.update_hlen()
 
+            # a subkey has no identities of its own, and what was signed on it as a primary key (certifications,
+            # direct-key signatures, revocations) says nothing about the subkey it has become: if these were
+            # kept they would be exported after the subkey packet and be taken for identities of the new primary
+            key._uids.clear()
+            key._signatures.clear()
+
         self._children[key.fingerprint.keyid] = key
         key._parent = self
 
